@@ -46,7 +46,13 @@ let show_parse fid args m =
   | _ -> Some "nofn"
 let rec take n l = if n <= 0 then [] else match l with [] -> [] | x :: r -> x :: take (n-1) r
 let rec drop n l = if n <= 0 then l else match l with [] -> [] | _ :: r -> drop (n-1) r
+(* text arguments with a byte >= 0x80: outside the IR's text model *)
+let nonascii_text line =
+  List.exists (fun a -> String.length a > 1 && a.[0] = 't' && a <> "t-" &&
+                 (let n = (String.length a - 1) / 2 in
+                  let rec go i = i < n && ((match a.[1 + 2*i] with '8'|'9'|'a'..'f' -> true | _ -> false) || go (i+1)) in go 0)) (split line)
 let process line =
+  if nonascii_text line then "nonascii" else
   match split line with
   | "S" :: fn :: args ->
     let k = fid fn in
